@@ -546,14 +546,33 @@ def construct(I, tok, args, kwargs):
     if tok.name == 'tuple':
         return tuple(b_list(I, *args))
     if tok.name == 'set':
-        return set(b_list(I, *args))
+        items = b_list(I, *args)
+        if any(is_z3(x) for x in items):
+            return SymSet(items)       # elements that may or may not be equal: the size is the number of distinct VALUES, not of distinct terms
+        return set(items)
     raise Unsupported('construct ' + tok.name)
 
 
 # ----------------------------------------------------------------------------- builtins
+class SymSet:
+    """set built from a list of symbolic elements (e.g. names): only its size is modelled"""
+
+    def __init__(self, items):
+        self.items = list(items)
+
+    def size(self):
+        tot = z3.IntVal(0)
+        for i, x in enumerate(self.items):
+            first = z3.And(*[z3.Not(to_bool(cmpop('Eq', x, y))) for y in self.items[:i]]) if i else z3.BoolVal(True)
+            tot = tot + z3.If(first, 1, 0)
+        return z3.simplify(tot)
+
+
 def b_len(I, v):
     if isinstance(v, Havoc):
         return v
+    if isinstance(v, SymSet):
+        return v.size()
     if isinstance(v, SymMap):
         return len(v)
     if isinstance(v, (list, tuple, dict, str, set)):
@@ -832,11 +851,6 @@ def b_set(I, v=()):
             return set(v)
         return SymSet(list(v))
     raise Unsupported('set()')
-
-
-class SymSet:
-    def __init__(self, items):
-        self.items = items
 
 
 def b_int(I, v=0):
